@@ -27,7 +27,7 @@ PROPS = {
         "not_decided": "equality of the executed module with the parsed model; de-duplication correctness.",
     },
     "C03": {
-        "rules": ["K2", "K4", "T1", "T3", "T6", "T13", "D3"],
+        "rules": ["K2", "K4", "T1", "T3", "T6", "T13", "D3", "T15"],
         "decides": "no keyword value is overwritten or deleted on the way out; properties and required are "
                    "emitted under JSON names; every constructor keyword is in the enumeration the serializer "
                    "walks; every nested position is recursed; type names invert the parser's.",
